@@ -1,4 +1,4 @@
 SPECIFICATION Spec
-CONSTANTS MaxN = 2 MaxK = 8 MaxI = 3
+CONSTANTS MaxN = 2 MaxK = 6 MaxI = 3
 INVARIANT InvEvents
 CHECK_DEADLOCK FALSE
